@@ -736,6 +736,8 @@ theorem domLoop_spec {n : Nat} {mono : Option (List Atom)} {wm : Bool} :
                 · rename_i hmono
                   split at h
                   · cases h
+                  split at h
+                  · cases h
                   · apply ih _ ps _ h
                     intro p hp
                     rcases List.mem_cons.mp hp with e | e
@@ -755,6 +757,58 @@ theorem verifyDominances_spec {n : Nat} {mono : Option (List Atom)} {wm : Bool} 
     split at h
     · cases h
     · exact domLoop_spec _ _ _ (fun p hp => by cases hp) h
+
+/-- fix 18dd711: every accepted dominance / joint-monotonicity pair names two DIFFERENT dimensions -/
+theorem domLoop_distinct {n : Nat} {mono : Option (List Atom)} {wm : Bool} :
+    ∀ (xs : List Item) (acc ps : List (Nat × Nat)), (∀ p ∈ acc, p.1 ≠ p.2) →
+      domLoop n mono wm xs acc = .ok ps → ∀ p ∈ ps, p.1 ≠ p.2 := by
+  intro xs
+  induction xs with
+  | nil =>
+    intro acc ps hacc h
+    simp only [domLoop, Except.ok.injEq] at h
+    subst h
+    intro p hp
+    exact hacc p (List.mem_reverse.mp hp)
+  | cons it rest ih =>
+    intro acc ps hacc h
+    simp only [domLoop, bind, Except.bind] at h
+    split at h
+    · cases h
+    · split at h
+      · cases h
+      · split at h
+        · rename_i tp a b
+          split at h
+          · cases h
+          · split at h
+            · cases h
+            · split at h
+              · cases h
+              · split at h
+                · cases h
+                · split at h
+                  · cases h
+                  · rename_i hne
+                    split at h
+                    · cases h
+                    · apply ih _ ps _ h
+                      intro p hp
+                      rcases List.mem_cons.mp hp with e | e
+                      · subst e
+                        simpa using hne
+                      · exact hacc p e
+        · cases h
+
+theorem verifyDominances_distinct {n : Nat} {mono : Option (List Atom)} {wm : Bool} {v : Val}
+    {ps : List (Nat × Nat)} (h : verifyDominances n mono wm v = .ok ps) : ∀ p ∈ ps, p.1 ≠ p.2 := by
+  unfold verifyDominances at h
+  split at h
+  · cases h; intro p hp; cases hp
+  · simp only [bind, Except.bind] at h
+    split at h
+    · cases h
+    · exact domLoop_distinct _ _ _ (fun p hp => by cases hp) h
 
 theorem loGeHi_false {lo hi : Option Rat} (h : loGeHi lo hi = false) :
     ∀ l h', lo = some l → hi = some h' → l < h' := by
